@@ -529,8 +529,11 @@ Unsubscribe(s, o, to, tok) ==
           THEN (IF existed THEN [s1 EXCEPT !.numH[n] = @ - 1] ELSE s1)
           ELSE [s1 EXCEPT !.numH[n] = @ + 1]     \* internal_observer.rs:131-135 (defect)
 \* State::unsubscribe (state.rs:438-443)
+\* returns (): nothing is reported to the caller
 StateUnsubscribe(s, to, tok) ==
-  IF to \in s.allObs THEN Unsubscribe(s, to, to, tok) ELSE s
+  IF to \in s.allObs
+  THEN LET r == Unsubscribe(s, to, to, tok) IN IF Ok(r) THEN [r EXCEPT !.retLog = s.retLog] ELSE r
+  ELSE s
 
 ---------------------------------------------------------------------------
 (* Node creation (node.rs:1597-1653; scope.rs:74-83)                        *)
@@ -902,7 +905,8 @@ RecomputeOne(s0, n) ==
          LET x == Value(s, d.ins[1])
              y == Value(s, d.ins[2]) IN
          IF x = NoVal \/ y = NoVal THEN Fail(s, "panic:unwrap_value") ELSE
-         ChangeValue(LogInv(s, n, <<x, y>>), n, F2(d.f, x, y))
+         \* zip / depend_on are library combinators: their internal map2 is no user function
+         ChangeValue(IF "silent" \in DOMAIN d THEN s ELSE LogInv(s, n, <<x, y>>), n, F2(d.f, x, y))
     [] d.k = "fold" ->
          LET vals == [i \in 1..Len(d.ins) |-> Value(s, d.ins[i])] IN
          IF \E i \in 1..Len(vals) : vals[i] = NoVal THEN Fail(s, "panic:unwrap_value") ELSE
@@ -1063,7 +1067,7 @@ InitState(maxH) ==
    scope |-> <<>>, cutoff |-> <<>>, force |-> <<>>, nobs |-> <<>>, numH |-> <<>>,
    inHas |-> <<>>, mrDid |-> <<>>, rhs |-> <<>>, created |-> <<>>, gen |-> <<>>, born |-> <<>>,
    edges |-> <<>>, fstale |-> <<>>, ninv |-> <<>>, fireAll |-> <<>>,
-   xprev |-> <<>>, xstore |-> <<>>, xdeps |-> <<>>, ne |-> 0, xdead |-> {},
+   xprev |-> <<>>, xstore |-> <<>>, xdeps |-> <<>>, ne |-> 0, xdead |-> {}, poisoned |-> FALSE,
    setAt |-> <<>>, cell |-> <<>>, pend |-> <<>>,
    \* observers
    no |-> 0, onode |-> <<>>, ostate |-> <<>>, osubs |-> <<>>, onext |-> <<>>, oclones |-> <<>>,
@@ -1098,10 +1102,10 @@ ApiMwo(s, f, mode, in) ==
 ApiZip(s, a, b) ==
   IF s.valid[a] /\ s.valid[b] /\ Kind(s, a) = "const" /\ Kind(s, b) = "const"
   THEN ApiConst(s, P(s.def[a].init[2], s.def[b].init[2]))
-  ELSE ApiMap2(s, "pair", a, b)
+  ELSE NewNode(s, [k |-> "map2", f |-> "pair", ins |-> <<a, b>>, silent |-> TRUE], s.curScope)
 \* Incr::depend_on (incr.rs:394-398)
 ApiDependOn(s, a, on) ==
-  LET s1 == ApiMap2(s, "fst", a, on) IN
+  LET s1 == NewNode(s, [k |-> "map2", f |-> "fst", ins |-> <<a, on>>, silent |-> TRUE], s.curScope) IN
   IF Ok(s1) THEN [s1 EXCEPT !.cutoff[s1.n] = [c |-> "dep", in |-> a]] ELSE s1
 \* expert::Node::new (state/expert.rs:8-31) in the current scope
 ApiExpert(s, f) == NewNode(s, [k |-> "expert", f |-> f], s.curScope)
@@ -1152,5 +1156,8 @@ ApiSetMaxHeight(s, new) ==
   IN IF ~Ok(s2) THEN s2 ELSE
      [s2 EXCEPT !.ahhMax = newLen - 1, !.rchMax = newLen - 1,
                 !.rchLower = Min(@, newLen + 1)]
+\* a panic that escaped a public call was caught by the caller: the engine state stays as the
+\* unwinding left it (in particular `status`), the caller carries on
+Recover(s) == [s EXCEPT !.panic = "", !.poisoned = TRUE, !.chain = 0]
 ApiClearLogs(s) == [s EXCEPT !.retLog = <<>>]
 =============================================================================
